@@ -131,6 +131,15 @@ Definition axis_of_name (n : str) : option axis :=
   else if str_eqb n (lit "attribute") then Some Attribute else if str_eqb n (lit "namespace") then Some Namespace
   else if str_eqb n (lit "self") then Some Self else None.
 
+(** As-is only: an axis keyword spelt with another character in place of its hyphen is
+    still the axis token of the generated lexer, but the evaluator's switch on the spelling
+    falls through to its default, the self axis ([//following5sibling::*] is [//self::*]). *)
+Definition axis_asis (asis : bool) (n : str) : option axis :=
+  match axis_of_name n with
+  | Some a => Some a
+  | None => if asis then match axis_of_name (kw true n) with Some _ => Some Self | None => None end else None
+  end.
+
 Definition is_node_type (n : str) : bool :=
   str_eqb n (lit "node") || str_eqb n (lit "text") || str_eqb n (lit "comment") || str_eqb n (lit "processing-instruction").
 Definition is_operator_name (n : str) : bool :=
@@ -190,7 +199,11 @@ Section Parser.
         let n := kw asis n0 in
         if str_eqb n (lit "node") then Some (NTNode, r) else if str_eqb n (lit "text") then Some (NTText, r)
         else if str_eqb n (lit "comment") then Some (NTComment, r)
-        else if str_eqb n (lit "processing-instruction") then Some (NTPI, r) else None
+        else if str_eqb n (lit "processing-instruction") then
+               (* as-is: [processing.instruction()] is the node-type token but matches no case of the
+                  evaluator's switch: it selects nothing (no PI has a target containing a space) *)
+               Some ((if str_eqb n0 n then NTPI else NTPITarget [32%N]), r)
+             else None
     | TName n :: TLPar :: TLiteral s :: TRPar :: r =>
         if str_eqb (kw asis n) (lit "processing-instruction") then Some (NTPITarget s, r) else None
     | TName p :: TColon :: TStar :: r => if name_ok asis p then Some (NTNsAny p, r) else None
@@ -308,7 +321,7 @@ Section Parser.
         | TDot :: r => Some (SAxis Self NTNode [], r)
         | TDotDot :: r => Some (SAxis Parent NTNode [], r)
         | TAt :: r => with_test Attribute r
-        | TName a :: TColonColon :: r => match axis_of_name (kw asis a) with Some ax => with_test ax r | None => None end
+        | TName a :: TColonColon :: r => match axis_asis asis a with Some ax => with_test ax r | None => None end
         | TName n :: TLPar :: r =>
             if fname_ok asis n then
               match parse_args f r with Some (args, r2) => Some (SCall (None, n) args, r2) | None => None end
@@ -378,13 +391,18 @@ End Parser.
 
 (** the generated grammar is ambiguous where XPath's lexical rule ("a [*] after [/] is a
     name test") decides: it also reads [/ * x] as the root node times x. As-is only:
-    the k-th [/] that is followed by [*] read as the bare root *)
-Fixpoint root_reading (k : nat) (ts : list tok) : list tok :=
+    the [/] tokens followed by [*] that are read as the bare root, chosen by the bits of [m] *)
+Fixpoint root_reading (m : nat) (ts : list tok) : list tok :=
   match ts with
-  | TSlash :: ((TStar :: _) as r) =>
-      match k with O => TRoot :: r | S k' => TSlash :: root_reading k' r end
-  | t :: r => t :: root_reading k r
+  | TSlash :: ((TStar :: _) as r) => (if Nat.odd m then TRoot else TSlash) :: root_reading (Nat.div2 m) r
+  | t :: r => t :: root_reading m r
   | [] => []
+  end.
+Fixpoint slash_stars (ts : list tok) : nat :=
+  match ts with
+  | TSlash :: ((TStar :: _) as r) => S (slash_stars r)
+  | _ :: r => slash_stars r
+  | [] => 0
   end.
 
 Fixpoint first_some {A} (f : nat -> option A) (n : nat) : option A :=
@@ -393,12 +411,23 @@ Fixpoint first_some {A} (f : nat -> option A) (n : nat) : option A :=
   | S k => match first_some f k with Some a => Some a | None => f k end
   end.
 
+Definition readings (ts : list tok) : nat := Nat.pow 2 (Nat.min (slash_stars ts) 8).
+
 Definition parse_string (asis : bool) (s : str) : option expr :=
   match lex (length s + 1) asis s with
   | Some ts =>
       match parse_tokens asis ts with
       | Some e => Some e
-      | None => if asis then first_some (fun k => parse_tokens asis (root_reading k ts)) (length ts) else None
+      | None => if asis then first_some (fun k => parse_tokens asis (root_reading k ts)) (readings ts) else None
       end
   | None => None
+  end.
+
+(** As-is only, for the matcher of the known finding: every reading of the string *)
+Definition parse_string_readings (s : str) : list expr :=
+  match lex (length s + 1) true s with
+  | Some ts =>
+      flat_map (fun k => match parse_tokens true (root_reading k ts) with Some e => [e] | None => [] end)
+               (seq 0 (readings ts))
+  | None => []
   end.
